@@ -261,7 +261,7 @@ func (st *c09State) prepare(w *engine.Worker, cs *c09Case) error {
 		// (other-big: of a grammar with over a thousand LR(1) states)
 		var other *GrammarCase
 		for _, gc := range st.cases {
-			if gc.IR != nil && gc.ID != cs.gc.ID && gc.HasSyntax && len(gc.NeedFlags) == 0 && (cs.env.Pre == "other" || gc.IR.Big) {
+			if gc.IR != nil && gc.ID != cs.gc.ID && gc.HasSyntax && len(gc.NeedFlags) == 0 && (cs.env.Pre == "other" && !gc.IR.Big || cs.env.Pre == "other-big" && gc.ID == "bigexpr") {
 				other = gc
 				break
 			}
